@@ -306,7 +306,12 @@ func body16(c *sched.Ctl, cs OnceCase, v *ev.Verdict) {
 		if eff {
 			v.OpsEffective++
 		}
-		if c.Settle(false) {
+		full := c.Settle(false)
+		if pp := c.Panics(); pp != "" {
+			fail("once:panic", "operation panicked: %s", pp)
+			break
+		}
+		if full {
 			quiescent(fmt.Sprintf("after op %d", i))
 		}
 	}
